@@ -328,6 +328,8 @@ struct LifeCase {
     /// Generator: an operation that was just woken from the blocked list and is to be blocked a second
     /// time with the same waker (the queue is filled up again first), and a fresh operation to poll next.
     reblock: Option<(usize, u32)>,
+    /// generator pattern "the same operation is interrupted / cancelled over and over": (op, rounds left, phase)
+    storm: Option<(usize, u32, u8)>,
     fill_pending: Option<usize>,
     /// outputs recorded by a `race`, replayed by the next ops: (op line, output lines)
     raced: Vec<(String, Vec<String>)>,
@@ -412,6 +414,7 @@ impl LifeCase {
             poisoned: false,
             blocked_wakers: Vec::new(),
             reblock: None,
+            storm: None,
             fill_pending: None,
             raced: Vec::new(),
             dfd,
@@ -838,6 +841,26 @@ impl Case for LifeCase {
         let inflight: Vec<usize> = simk::with_ring(self.rfd, |r, _| {
             r.inflight.iter().filter_map(|inf| self.ops.iter().position(|o| o.ud_inflight == Some(inf.sqe.user_data))).collect()
         });
+        // "interrupted again and again": the same in-flight operation is finished with EINTR /
+        // ECANCELED, processed, polled (restarted), submitted — a dozen times in a row
+        if let Some((i, rounds, phase)) = self.storm {
+            let usable = !self.ring_dropped && i < self.ops.len() && self.ops[i].obj.is_some();
+            if !usable || rounds == 0 {
+                self.storm = None;
+            } else {
+                self.storm = Some(if phase == 3 { (i, rounds - 1, 0) } else { (i, rounds, phase + 1) });
+                match phase {
+                    0 if inflight.contains(&i) => return Some(format!("life kpost {i} {} 0", if rng.chance(1, 2) { -libc::ECANCELED } else { -libc::EINTR })),
+                    0 => self.storm = None,
+                    1 | 3 => return Some("life rpoll -".into()),
+                    _ => return Some(format!("life poll {i} {}", i * 10)),
+                }
+            }
+        } else if !self.ring_dropped && !inflight.is_empty() && rng.chance(1, 50) {
+            let i = *rng.pick(&inflight);
+            self.storm = Some((i, 12, 0));
+            self.steps_left += 50;
+        }
         let can_new = self.ops.len() < self.max_ops;
         let w_new = if can_new { 4 } else { 0 };
         let w_poll = if live.is_empty() { 0 } else { 8 };
